@@ -115,3 +115,11 @@ Theorem no_crash_unary : forall lib o v, acceptable (unop_eval lib o v) = true.
 Proof. exact acceptable_unop_l. Qed.
 Print Assumptions no_crash_any_pair.
 Print Assumptions no_crash_unary.
+
+(* (int) and (float) casts (std/convert_int.go, std/convert_float.go): the documented conversions
+   on every scalar, and never a crash on any value *)
+Theorem cast_is_ref : forall lib c v, scalar v = true -> cast_eval lib c v = ref_cast lib c v.
+Proof. exact cast_is_ref_l. Qed.
+Theorem cast_no_crash : forall lib c v, acceptable (cast_eval lib c v) = true.
+Proof. exact cast_acceptable_l. Qed.
+Print Assumptions cast_is_ref.
